@@ -20,6 +20,7 @@ func ZZ_C04_N12() {
 	n.begin(sc.proposer, nil, nil)
 	pre := n.snap(sc.frozenKeys, sc.propHash)
 	r := n.app.DeliverTx(abcitypes.RequestDeliverTx{Tx: sc.raw})
+	sc.reachOutcome(r.Code)
 	post := n.snap(sc.frozenKeys, sc.propHash)
 	for i := 0; i < zzNAcct; i++ {
 		if r.Code == 0 && i == sc.tx.from {
@@ -53,6 +54,7 @@ func ZZ_C05_A1() {
 	n.begin(1, nil, nil)
 	pre := n.snap(sc.frozenKeys, sc.propHash)
 	r := n.app.DeliverTx(abcitypes.RequestDeliverTx{Tx: sc.raw})
+	sc.reachOutcome(r.Code)
 	if r.Code == 0 {
 		zzverif.Reach("A1 success")
 		return
@@ -77,6 +79,7 @@ func ZZ_C16_F12() {
 	n.begin(1, nil, nil)
 	pre := n.snap(sc.frozenKeys, sc.propHash)
 	r := n.app.DeliverTx(abcitypes.RequestDeliverTx{Tx: sc.raw})
+	sc.reachOutcome(r.Code)
 	post := n.snap(sc.frozenKeys, sc.propHash)
 	fee := sc.fee()
 	if r.Code != 0 {
@@ -123,6 +126,7 @@ func ZZ_C02_V1() {
 	n.begin(proposer, nil, nil)
 	pre := n.snap(sc.frozenKeys, sc.propHash)
 	r := n.app.DeliverTx(abcitypes.RequestDeliverTx{Tx: sc.raw})
+	sc.reachOutcome(r.Code)
 	post := n.snap(sc.frozenKeys, sc.propHash)
 	want := pre.total()
 	if r.Code == 0 && sc.typ == ctrlertypes.TRX_WITHDRAW {
@@ -156,6 +160,7 @@ func ZZ_C03_I23() {
 	n.begin(1, nil, nil)
 	pre := n.snap(sc.frozenKeys, sc.propHash)
 	r := n.app.DeliverTx(abcitypes.RequestDeliverTx{Tx: sc.raw})
+	sc.reachOutcome(r.Code)
 	if r.Code == 0 {
 		zzverif.Assert(sc.sigOK, "I2 a transaction takes effect only if signed by the sender's key, for this chain, over exactly its fields")
 		zzverif.Reach("I23 success")
